@@ -166,13 +166,24 @@ End SplitProofs.
 Section UdpProofs.
   Variable Fixed : bool.
   Variables BufSz Low MaxRec Batch : N.
+  Variable BwCap : option N.
   Hypothesis HLow : 2 + MaxRec <= Low.
   Hypothesis HBuf : Low < BufSz.
   Hypothesis HBatch : 0 < Batch.
+  (* the sendmmsg writer can hold a full batch: flush() never hands it more than it can take *)
+  Hypothesis HCap : forall cap, BwCap = Some cap -> Batch <= cap.
+
+  Lemma uflush_path_ok p w : w_fail w = None -> lenN p <= Batch ->
+    uflush_path BwCap p w = (false, wadd w p).
+  Proof.
+    intros Hw Hl. unfold uflush_path. destruct BwCap as [cap|] eqn:E; [|apply flush_ok; exact Hw].
+    pose proof (HCap cap eq_refl) as Hc.
+    rewrite (@firstn_all2 _ (N.to_nat cap) p) by (unfold lenN in Hl; lia). apply flush_ok; exact Hw.
+  Qed.
 
   Notation split := (split MaxRec).
   Notation split_all := (split_all MaxRec).
-  Notation unpack := (unpack MaxRec Batch).
+  Notation unpack := (unpack MaxRec Batch BwCap).
 
   (* ---------------------------------------------------------------------------------------- *)
   (*  the inner unpacking loop extracts exactly the complete records of the buffer             *)
@@ -196,14 +207,14 @@ Section UdpProofs.
     { exists pend, w. rewrite app_nil_r. repeat split; auto. }
     destruct buf as [|a [|b tl]]; try exact Hbase.
     destruct ((de16 [a; b] =? 0) || (MaxRec <? de16 [a; b])) eqn:Eb.
-    - rewrite (flush_ok pend w Hw). cbn [snd]. now rewrite app_nil_r.
+    - rewrite (uflush_path_ok pend w Hw ltac:(lia)). cbn [snd]. now rewrite app_nil_r.
     - destruct (lenN tl <? de16 [a; b]) eqn:E; [exact Hbase|].
       set (d := firstn (N.to_nat (de16 [a; b])) tl).
       set (buf' := skipn (N.to_nat (de16 [a; b])) tl).
       assert (Hf' : (length buf' < f)%nat).
       { subst buf'. rewrite skipn_length. cbn [length] in Hf. lia. }
       destruct (Batch <=? lenN (pend ++ [d])) eqn:Ebatch.
-      + rewrite (flush_ok (pend ++ [d]) w Hw).
+      + rewrite (uflush_path_ok (pend ++ [d]) w Hw ltac:(rewrite lenN_app; unfold lenN at 2; cbn [length]; lia)).
         assert (Hw2 : w_fail (wadd w (pend ++ [d])) = None) by (now rewrite wadd_fail).
         assert (Hp0 : lenN (@nil dgram) < Batch) by (unfold lenN; cbn [length]; lia).
         specialize (IH buf' [] (wadd w (pend ++ [d])) Hw2 Hf' Hp0).
@@ -226,22 +237,22 @@ Section UdpProofs.
   Qed.
 
   Lemma post_unpack : forall (pend' : list dgram) (w' W : wst) (processed : nat),
-    w_fail w' = None -> wadd w' pend' = W -> (pend' <> [] -> (0 < processed)%nat) ->
+    w_fail w' = None -> lenN pend' < Batch -> wadd w' pend' = W -> (pend' <> [] -> (0 < processed)%nat) ->
     (if negb (is_nil pend') && (0 <? processed)%nat
-     then let '(fe, w2) := uflush pend' w' in (fe, w2, @nil dgram)
+     then let '(fe, w2) := uflush_path BwCap pend' w' in (fe, w2, @nil dgram)
      else (false, w', pend')) = (false, W, []).
   Proof.
-    intros pend' w' W processed Hw HW Hp. destruct pend' as [|d p].
+    intros pend' w' W processed Hw Hlen HW Hp. destruct pend' as [|d p].
     - cbn [is_nil negb andb]. cbn [wadd] in HW. now subst W.
     - assert (H0 : (0 < processed)%nat) by (apply Hp; discriminate).
       cbn [is_nil negb andb]. replace (0 <? processed)%nat with true by (symmetry; apply Nat.ltb_lt; exact H0).
-      rewrite (flush_ok (d :: p) w' Hw). now rewrite HW.
+      rewrite (uflush_path_ok (d :: p) w' Hw ltac:(lia)). now rewrite HW.
   Qed.
 
   (* what one iteration does once the read has been made (pending is empty at every loop head) *)
   Lemma process_spec : forall (w : wst) (buf1 : list byte) (t1 : trd) (err1 : N) (ended : bool),
     w_fail w = None ->
-    process_phase Fixed MaxRec Batch [] w (buf1, t1, err1, ended) =
+    process_phase Fixed MaxRec Batch BwCap [] w (buf1, t1, err1, ended) =
     (let '(recs, rst, bad) := split_all buf1 in
      if bad then OStop (wadd w recs) err1
      else if Fixed && ended then OStop (wadd w recs) (if is_nil rst then err1 else if err1 =? 0 then 3 else err1)
@@ -251,7 +262,8 @@ Section UdpProofs.
     intros w buf1 t1 err1 ended Hw. unfold process_phase.
     destruct (ended && is_nil buf1) eqn:Een.
     - apply andb_true_iff in Een. destruct Een as [-> Hnil]. destruct buf1; [|discriminate Hnil].
-      cbn [uflush Relay.split_all Relay.split length is_nil wadd]. rewrite andb_false_l, andb_true_r.
+      rewrite (uflush_path_ok [] w Hw ltac:(unfold lenN; cbn [length]; lia)).
+      cbn [Relay.split_all Relay.split length is_nil wadd]. rewrite andb_false_l, andb_true_r.
       destruct Fixed; reflexivity.
     - assert (Hp0 : lenN (@nil dgram) < Batch) by (unfold lenN; cbn [length]; lia).
       pose proof (unpack_spec (S (length buf1)) buf1 [] w Hw (Nat.lt_succ_diag_r _) Hp0) as Hu.
@@ -260,7 +272,7 @@ Section UdpProofs.
       destruct (split (S (length buf1)) buf1) as [[recs rst] bad] eqn:Es. destruct bad.
       + rewrite Hu. reflexivity.
       + destruct Hu as (pend' & w' & Hu & Hwa & Hpl & Hwf & Hnil). rewrite Hu. cbn [app] in Hwa.
-        rewrite (post_unpack pend' w' (wadd w recs) (length buf1 - length rst) Hwf Hwa).
+        rewrite (post_unpack pend' w' (wadd w recs) (length buf1 - length rst) Hwf Hpl Hwa).
         * destruct (Fixed && ended); reflexivity.
         * intros Hne. apply split_length in Es.
           destruct recs as [|r0 recs]; [destruct (Hnil eq_refl) as [-> _]; congruence|].
@@ -289,7 +301,7 @@ Section UdpProofs.
     - left. apply read1_none in E. auto.
   Qed.
 
-  Notation deframe := (deframe Fixed BufSz Low MaxRec Batch).
+  Notation deframe := (deframe Fixed BufSz Low MaxRec Batch BwCap).
 
   Lemma read_phase_low s : lenN (s_buf s) < Low ->
     read_phase BufSz Low s =
@@ -348,12 +360,45 @@ Section UdpProofs.
       + cbn [andb]. eexists; split; [reflexivity|]. intros _. reflexivity.
   Qed.
 
+  (* ---- datagrams are VALUES: what has been handed to the local writer is never altered by any later step of
+          the loop (refill of readBuf, compaction, further flushes only APPEND to the log).  In the Go code the
+          writer receives a sub-slice of readBuf that is only valid until flush() returns; the model's equality
+          with the code therefore rests on the io.Writer contract "Write must not retain p" for whatever is used
+          as the UDP side — checked on the real UDPVirtualConn / *net.UDPConn by the correspondence run. ---- *)
+  Lemma outer_step_appends s : s_pend s = [] -> w_fail (s_w s) = None ->
+    match outer_step Fixed BufSz Low MaxRec Batch BwCap s with
+    | OStop w' _ => exists more, w_log w' = w_log (s_w s) ++ more
+    | OCont s' => (exists more, w_log (s_w s') = w_log (s_w s) ++ more) /\ s_pend s' = [] /\ w_fail (s_w s') = None
+    | OFuel => True
+    end.
+  Proof.
+    intros Hp Hw. unfold outer_step. rewrite Hp.
+    destruct (read_phase BufSz Low s) as [[[buf1 t1] err1] ended].
+    rewrite (process_spec (s_w s) buf1 t1 err1 ended Hw).
+    destruct (split_all buf1) as [[recs rst] bad].
+    assert (Hl : exists more, w_log (wadd (s_w s) recs) = w_log (s_w s) ++ more) by (exists recs; apply wadd_log).
+    destruct bad; [exact Hl|]. destruct (Fixed && ended); [exact Hl|]. destruct (ended && is_nil buf1); [exact Hl|].
+    cbn [s_w s_pend]. split; [exact Hl|]. split; [reflexivity|]. now rewrite wadd_fail.
+  Qed.
+
+  Theorem delivered_datagrams_are_values : forall fuel s w e,
+    s_pend s = [] -> w_fail (s_w s) = None -> deframe fuel s = DDone w e ->
+    exists more, w_log w = w_log (s_w s) ++ more.
+  Proof.
+    induction fuel as [|f IH]; intros s w e Hp Hw Hd; [discriminate Hd|].
+    cbn [Relay.deframe] in Hd. pose proof (outer_step_appends s Hp Hw) as Ha.
+    destruct (outer_step Fixed BufSz Low MaxRec Batch BwCap s) as [w' e'|s'|]; [| |discriminate Hd].
+    - inversion Hd; subst w' e'. exact Ha.
+    - destruct Ha as ((m1 & Hm1) & Hp' & Hw'). destruct (IH s' w e Hp' Hw' Hd) as (m2 & Hm2).
+      exists (m1 ++ m2). rewrite Hm2, Hm1. now rewrite app_assoc.
+  Qed.
+
   (* the pinned loop: once the tunnel has ended and an incomplete record is buffered, an iteration
      changes nothing — the loop never leaves *)
   Lemma pinned_step_is_identity : Fixed = false -> forall s,
     s_pend s = [] -> w_fail (s_w s) = None -> lenN (s_buf s) < Low ->
     rest (t_rd (s_t s)) = [] -> s_buf s <> [] -> split_all (s_buf s) = ([], s_buf s, false) ->
-    outer_step Fixed BufSz Low MaxRec Batch s =
+    outer_step Fixed BufSz Low MaxRec Batch BwCap s =
       OCont {| s_buf := s_buf s; s_pend := []; s_w := s_w s; s_t := s_t s;
                s_err := if endk (t_rd (s_t s)) =? 0 then s_err s else 1 |}.
   Proof.
@@ -535,6 +580,8 @@ End EncProofs.
 (* ---------------------------------------------------------------------------------------- *)
 Section UdpTop.
   Variables BufSz Low MaxRec Batch BatchBuf : N.
+  Variable BwCap : option N.     (* the local write path: fallback loop | sendmmsg batch writer of this capacity *)
+  Hypothesis HCap : forall cap, BwCap = Some cap -> Batch <= cap.
   Hypothesis HLow : 2 + MaxRec <= Low.
   Hypothesis HBuf : Low < BufSz.
   Hypothesis HBatch : 0 < Batch.
@@ -543,13 +590,13 @@ Section UdpTop.
   Theorem deframe_any_cut : forall (ds : list dgram) (cut : nat) (cuts : list nat) (e : N) (wd : bool) (fuel : nat),
     Forall (valid_dgram MaxRec) ds ->
     (length (firstn cut (encode_all ds)) < fuel)%nat ->
-    exists w, deframe true BufSz Low MaxRec Batch fuel (ust0 (firstn cut (encode_all ds)) cuts e wd None)
+    exists w, deframe true BufSz Low MaxRec Batch BwCap fuel (ust0 (firstn cut (encode_all ds)) cuts e wd None)
               = DDone w (final_err 0 e (tail_after cut ds)) /\
               w_log w = complete_before cut ds /\ w_bytes w = sum_len (complete_before cut ds).
   Proof.
     intros ds cut cuts e wd fuel Hv Hf.
     assert (H0 : lenN (@nil byte) < Low) by (unfold lenN; cbn [length]; lia).
-    pose proof (deframe_fixed_spec true BufSz Low MaxRec Batch HLow HBuf HBatch eq_refl fuel
+    pose proof (deframe_fixed_spec true BufSz Low MaxRec Batch BwCap HLow HBuf HBatch HCap eq_refl fuel
                   (ust0 (firstn cut (encode_all ds)) cuts e wd None) eq_refl eq_refl H0 Hf) as H.
     cbn [ust0 s_buf s_t t_rd rest s_w s_err endk app] in H.
     rewrite (split_cut MaxRec HMax ds Hv cut) in H.
@@ -560,7 +607,7 @@ Section UdpTop.
   Theorem udp_roundtrip : forall (evs : list uev) (cuts : list nat) (wd : bool) (fuel : nat),
     Forall (valid_dgram MaxRec) (ev_dgrams evs) ->
     (length (concat (e_out (encode_events BatchBuf evs))) < fuel)%nat ->
-    exists w, deframe true BufSz Low MaxRec Batch fuel
+    exists w, deframe true BufSz Low MaxRec Batch BwCap fuel
                 (ust0 (concat (e_out (encode_events BatchBuf evs))) cuts 0 wd None) = DDone w 0 /\
               w_log w = ev_dgrams evs /\ w_bytes w = e_sent (encode_events BatchBuf evs).
   Proof.
